@@ -6,6 +6,7 @@ import (
 	"os"
 	"path/filepath"
 	"runtime/debug"
+	"strconv"
 	"strings"
 	"syscall"
 	"time"
@@ -291,6 +292,53 @@ func runC04(c *core.Ctx) {
 	// lines whose length sits on the boundaries of read buffers (4096) and of the scanner (64 KiB),
 	// as last line of the file with and without a final line terminator, as entry and as heading
 	c.RunPart("l3-line-lengths", 10*time.Minute, func(c *core.Ctx) {
+		// entry layouts at any position of a file: after a long head of plain `  name: value` lines (a machine-written
+		// file edited by hand at the end) a quoted name, a list dash, a blank or the colon in front of the quantity mean
+		// what they mean at the top
+		{
+			layouts := []struct{ line, name, val string }{{`  "brown rice": 2.5`, "brown rice", "2.5"}, {"  - tea: 1", "tea", "1"}, {"  oat milk : 3", "oat milk", "3"}, {"  coffee/cup :2", "coffee/cup", "2"}, {`  "x" :"1.5"`, "x", "1.5"}, {"\tjam:\t4", "jam", "4"}, {"  -  \"a b\":  5  ", "a b", "5"}}
+			for _, head := range []int{0, 1, 63, 64, 65, 200, 1100} {
+				var sb strings.Builder
+				sb.WriteString("first:\n")
+				for k := 0; k < head; k++ {
+					fmt.Fprintf(&sb, "  plain%d: %d\n", k, k%9+1)
+					if k%50 == 49 {
+						fmt.Fprintf(&sb, "rec%d:\n", k)
+					}
+				}
+				sb.WriteString("last:\n")
+				for _, l := range layouts {
+					sb.WriteString(l.line + "\n")
+				}
+				evs, ret, pnc := parseAll(sb.String())
+				c.Eval(1)
+				c.Count("entry_layouts_after_a_plain_head", 1)
+				c.Nontrivial("layouts-after-head", fmt.Sprint(head))
+				bad := ""
+				if pnc != "" || ret != nil || len(evs) == 0 || evs[len(evs)-1].Node == nil {
+					bad = fmt.Sprintf("returned %v, panic %q, %d events", ret, clip(pnc, 100), len(evs))
+				} else if n := evs[len(evs)-1].Node; n.Header != "last" || len(n.Elements) != len(layouts) {
+					bad = fmt.Sprintf("last record %q has %d entries, want %d", n.Header, len(n.Elements), len(layouts))
+				} else {
+					for k, l := range layouts {
+						want, _ := strconv.ParseFloat(l.val, 64)
+						if n.Elements[k].Name != l.name || n.Elements[k].Value != want {
+							bad = fmt.Sprintf("entry written %q read as (%q, %v), want (%q, %v)", l.line, n.Elements[k].Name, n.Elements[k].Value, l.name, want)
+							break
+						}
+					}
+				}
+				if bad != "" {
+					c.Violation("ParseStreamCallback|entry-layout-after-plain-head", fmt.Sprintf("%d plain entries, then a record in mixed layouts: %s", head, bad), map[string]any{"plain_entries_before": head, "last_record": "last:\n" + func() string {
+						t := ""
+						for _, l := range layouts {
+							t += l.line + "\n"
+						}
+						return t
+					}()})
+				}
+			}
+		}
 		// names written in quotes are taken verbatim between the outer quotes: a backslash is a character, not an escape
 		{
 			type ne struct{ line, name string }
